@@ -180,15 +180,18 @@ Definition arrF_zget (rows : list cells) (ax : zaindex) : aget :=
                  end
   end.
 
-(* a[:, n] with n an ndarray (sparse.py:738-741): the test `if n == open_slice` compares elementwise, and the truth value of the
-   resulting array raises ValueError unless it has exactly one element (then it is False and the block is read; an empty
-   array is falsy with a DeprecationWarning).  A python list as n compares unequal as a whole and is not affected. *)
-Definition arrF_get_open_nd (rows : list cells) (n : index) : aget :=
-  match n with
-  | IList l => if Nat.leb 2 (length l) then GErr EValue else arrF_get rows (XPair IOpen n)
-  | IMask mk => if Nat.leb 2 (length mk) then GErr EValue else arrF_get rows (XPair IOpen n)
-  | _ => arrF_get rows (XPair IOpen n)
-  end.
+(* a[:, n] with n an ndarray (sparse.py:738-741).  Repaired source (pending_fixes/C09_9): the class of n is tested before it is
+   compared with open_slice, so an ndarray goes to the block read like a python list.  Unrepaired source (legacy = true): the
+   test `if n == open_slice` compares elementwise, and the truth value of the resulting array raises ValueError unless it has
+   exactly one element (then it is False and the block is read; an empty array is falsy with a DeprecationWarning). *)
+Definition arrF_get_open_nd (legacy : bool) (rows : list cells) (n : index) : aget :=
+  if legacy then
+    match n with
+    | IList l => if Nat.leb 2 (length l) then GErr EValue else arrF_get rows (XPair IOpen n)
+    | IMask mk => if Nat.leb 2 (length mk) then GErr EValue else arrF_get rows (XPair IOpen n)
+    | _ => arrF_get rows (XPair IOpen n)
+    end
+  else arrF_get rows (XPair IOpen n).
 
 (* ---- NumPy's rule ---- *)
 Definition np_znorm (n : nat) (k : Z) : res nat :=
@@ -236,7 +239,7 @@ Inductive yop :=
 | YGet (i : nat) (ix : zindex)
 | YSet (i : nat) (ix : zindex) (v : arg)
 | YAGet (i : nat) (ax : zaindex)
-| YAGetNd (i : nat) (n : index).          (* a[:, n] with n an ndarray *)
+| YAGetNd (legacy : bool) (i : nat) (n : index).          (* a[:, n] with n an ndarray; legacy = the unrepaired source *)
 Definition ystep_res (lg : bool) (s : store) (o : yop) : res (store * outcome) :=
   match o with
   | YOp o => xstep_res lg s o
@@ -268,11 +271,11 @@ Definition ystep_res (lg : bool) (s : store) (o : yop) : res (store * outcome) :
           end
       | _ => unsupported
       end
-  | YAGetNd i n =>
+  | YAGetNd lgn i n =>
       do x <- getobj s i;
       match x with
       | OA rows ro =>
-          match arrF_get_open_nd rows n with
+          match arrF_get_open_nd lgn rows n with
           | GSelf => Ok (s, RSelf)
           | GDenseF l => Ok (s, RDense l)
           | GDense2F m => Ok (s, RDense2 m)
@@ -309,7 +312,7 @@ Definition np_ystep (d : dstore) (o : yop) : option doutcome :=
   | YAGet i ax => match nth_error d i with
                   | Some (DA M ro) => Some (np_azget M ro ax)
                   | _ => None end
-  | YOp _ | YAGetNd _ _ => None
+  | YOp _ | YAGetNd _ _ _ => None
   end.
 Fixpoint yrun_np (lg : bool) (s : store) (ops : list yop) : list doutcome :=
   match ops with
